@@ -1767,7 +1767,6 @@ theorem fromField_reads3 (ov : List (String × String)) : ∀ (f : Field) (obj :
         have hb := elemReads3_of _ _ _ _ (elemReads_prim
           (fun as s => copyFromFields ov sub as { s with obj := resetOneOfs ((msg.map (·.oneOfNames)).getD []) s.obj })
           ov info (mv.getD info) k hrt (by rw [hev]; exact hrt.ek) (Or.inr hk))
-        rw [hnn] at hb
         rw [← fromElemBody_unembed_map] at hb
         refine plain_or_embed _ ov info mv msg attrs st a _ ho (by simp [hk]) (by simp [hk]) hs hl hv ?_ ?_
         · intro st'
